@@ -30,14 +30,15 @@ KINDS = [
     ("Undefined variable", "UndefinedVariable"),
 ]
 
-F10 = "F10-disabled-variable"
 F17 = "C12-later-dotted-scope-visible"
-# a known_findings.json entry is recognised by its id or by its "signature" field
-SIGNATURES = {F10: "disabled-variable", F17: "later-dotted-scope"}
+# a known_findings.json entry is recognised by its id or by its "signature" field.
+# (The former finding "disabled objects supply variables" was repaired in /repo af676a9: its
+# witness is a must-pass corpus case and the oracle treats disabled objects as invisible.)
+SIGNATURES = {F17: "later-dotted-scope"}
 
 
 def finding_key(finding):
-    """-> F10 | F17 | None : which of this check's two defect signatures a registered finding names"""
+    """-> F17 | None : whether a registered finding names this check's open defect signature"""
     for k, sig in SIGNATURES.items():
         if finding.get("id") == k or finding.get("signature") == sig:
             return k
@@ -379,8 +380,11 @@ class Documents(Stream):
     def corpus(self):
         d = lambda n, *ws: ["d", n, 0, [list(w) for w in ws]]
         return [
-            # F10 witness: a disabled earlier definition supplies $y
+            # former witness of the repaired defect: a disabled earlier definition must NOT supply $y
             {"doc": [["d", "y", 1, [["1", "n"]]], d("z", ("$y", "n"))], "env": []},
+            {"doc": [["d", "y", 1, [["1", "n"]]], d("z", ("$y", "n"))], "env": [["y", "E"]]},
+            {"doc": [d("y", ("0", "n")), ["s", "s", 1, [d("y", ("1", "n"))]], ["d", "y", 1, [["2", "n"]]],
+                     d("z", ("$y", "n"), ("$(s.y)", "n"))], "env": []},
             # later dotted definition turns an environment variable into an error
             {"doc": [["s", "t", 0, [d("a", ("$VERIFX", "n"))]], d("VERIFX.b", ("1", "n"))], "env": [["VERIFX", "E"]]},
             {"doc": [["s", "t", 0, [d("a", ("$VERIFX", "n"))]]], "env": [["VERIFX", "E"]]},
@@ -496,38 +500,29 @@ class Documents(Stream):
         if not sp.matches_tree(o[1]):
             return None  # the document did not parse into the structure the case describes (not this property)
         for node, d in zip(sp.defs, o[2]):
-            want = sp.resolve(node, skip_disabled=True, shells=False)
+            want = sp.resolve(node, shells=False)
             if want is None:
                 continue  # touches a malformed reference: the property text does not say
             got = d[2]
             if got == want:
                 continue
-            readings = {"dis": sp.resolve(node, False, False), "shell": sp.resolve(node, True, True),
-                        "both": sp.resolve(node, False, True)}
-            if readings["dis"] == got:
-                return "%s: definition %s (line %d) resolves to %r through a disabled object; the property text gives %r" % (
-                    F10, node.path(), node.line, got, want)
-            if readings["shell"] == got or readings["both"] == got:
+            shell = sp.resolve(node, shells=True)
+            if shell == got:
                 return "%s: definition %s (line %d) gives %r because of a dotted definition later in the file; the property text gives %r" % (
                     F17, node.path(), node.line, got, want)
-            if None in readings.values():
-                continue  # a disabled / later object that the code consults is malformed: the text does not say
+            if shell is None:
+                continue  # the later object that the code consults is malformed: the text does not say
             return "definition %s (line %d): implementation %r, property text %r" % (node.path(), node.line, got, want)
         return None
 
     def in_domain(self, case):
-        # Known defects of the unchanged code are evaluated only once they are registered as open
-        # findings (then run_check matches them); until then the affected cases are outside the domain:
-        #   F10-disabled-variable            lexical_get does not skip disabled objects
-        #   C12-later-dotted-scope-visible   an id-less prefix scope of a LATER dotted definition is visible
+        # The open defect C12-later-dotted-scope-visible (an id-less prefix scope of a LATER dotted
+        # definition is visible) is evaluated only while it is registered as an open finding (then
+        # run_check matches it); otherwise the affected cases are outside the domain.
+        if F17 in self.known:
+            return True
         sp = Spec(case)
-        for node in sp.defs:
-            base = sp.resolve(node, True, False)
-            if F10 not in self.known and sp.resolve(node, False, False) != base:
-                return False
-            if F17 not in self.known and (sp.resolve(node, True, True) != base or sp.resolve(node, False, True) != sp.resolve(node, False, False)):
-                return False
-        return True
+        return all(sp.resolve(node, shells=True) == sp.resolve(node, shells=False) for node in sp.defs)
 
     def key(self, case, o):
         if o[0] != "parsed":
@@ -704,7 +699,7 @@ class Spec:
         return [conv(k) for k in self.root.kids] == [conv_t(t) for t in tree]
 
     # -- lookup: all objects named by [comps] below scope [sc] that sit before position p
-    def _matches(self, sc, comps, p, skip_disabled, shells):
+    def _matches(self, sc, comps, p, shells):
         out = []
         for k in sc.kids:
             if not k.shell and k.pos >= p:
@@ -713,17 +708,17 @@ class Spec:
                 continue
             if k.shell and not shells and k.pos >= p:
                 continue       # property text: a wrapper of a later definition is later
-            if skip_disabled and k.disabled:
-                continue
+            if k.disabled:
+                continue       # a disabled object (and everything inside a disabled scope) is commented out
             if k.name != comps[0]:
                 continue
             if len(comps) == 1:
                 out.append(k)
             elif k.kind == "s":
-                out.extend(self._matches(k, comps[1:], p, skip_disabled, shells))
+                out.extend(self._matches(k, comps[1:], p, shells))
         return out
 
-    def lookup(self, name, node, skip_disabled, shells):
+    def lookup(self, name, node, shells):
         anchored = name.startswith(".")
         comps = (name[1:] if anchored else name).split(".")
         sc = node.parent
@@ -734,7 +729,7 @@ class Spec:
         if anchored:
             chain = chain[-1:]
         for sc in chain:
-            m = self._matches(sc, comps, node.pos, skip_disabled, shells)
+            m = self._matches(sc, comps, node.pos, shells)
             if m:
                 # nearest = latest in document order; among wrappers of one definition the outermost match
                 best = max(m, key=lambda k: k.pos)
@@ -762,7 +757,7 @@ class Spec:
             i = m.end()
         return out
 
-    def resolve(self, node, skip_disabled, shells, depth=0):
+    def resolve(self, node, shells, depth=0):
         """-> ["ok", words] | ["err", "RuntimeError", kind, line] | None (text does not say)"""
         if depth > 200:
             return ["nontermination"]
@@ -785,11 +780,11 @@ class Spec:
                     continue
                 if val.startswith(".") and val in self.env:
                     return None
-                src = self.lookup(val, node, skip_disabled, shells)
+                src = self.lookup(val, node, shells)
                 if src is not None:
                     if src.kind != "d":
                         return ["err", "RuntimeError", "NotADefinition", str(line)]
-                    r = self.resolve(src, skip_disabled, shells, depth + 1)
+                    r = self.resolve(src, shells, depth + 1)
                     if r is None or r[0] != "ok":
                         return r
                     ws = r[1]
